@@ -12,6 +12,7 @@ theorem readLoop_spec (pend : List Byte) (q : List RAns) (acc : List Byte) :
   | cons a q ih =>
       cases a with
       | eagain => exact ⟨rfl, [], by simp [readLoop]⟩
+      | eintr => exact ⟨rfl, [], by simp [readLoop]⟩
       | err => exact ⟨rfl, [], by simp [readLoop]⟩
       | fill => simp [readLoop]
       | chunk k =>
@@ -45,6 +46,7 @@ theorem firstRead_spec (pend : List Byte) (eof : Bool) (q : List RAns) :
     | cons a q =>
         cases a with
         | eagain => simp [firstRead, ReadOk]
+        | eintr => simp [firstRead, ReadOk]
         | err => simp [firstRead, ReadOk]
         | fill => simp [firstRead, hp, ReadOk]
         | chunk k =>
@@ -123,7 +125,10 @@ theorem send_rsame (s : S) (d : List Byte) : RSame (send s d).1 s := by
   split; exact ⟨rfl, rfl, rfl, rfl, rfl, rfl, rfl⟩
   simp only
   split; exact ⟨rfl, rfl, rfl, rfl, rfl, rfl, rfl⟩
-  split <;> exact ⟨rfl, rfl, rfl, rfl, rfl, rfl, rfl⟩
+  split
+  · exact ⟨rfl, rfl, rfl, rfl, rfl, rfl, rfl⟩
+  · exact ⟨rfl, rfl, rfl, rfl, rfl, rfl, rfl⟩
+  · split <;> exact ⟨rfl, rfl, rfl, rfl, rfl, rfl, rfl⟩
 
 theorem enable_rsame (s : S) : RSame (enable s).1 s := by
   unfold enable
@@ -168,10 +173,7 @@ theorem StreamInv.addEv {s : S} (hs : StreamInv s) (e : Ev) (he : Ev.isPres e = 
   hs.congr ⟨rfl, rfl, rfl, rfl, rfl, rfl, rfl⟩ (.inr ⟨e, he, rfl⟩)
 
 theorem streamInv_stable_send (s : S) (d : List Byte) (hs : StreamInv s) : StreamInv (send s d).1 := by
-  refine hs.congr (send_rsame s d) ?_
-  rcases send_hist s d with h | h
-  · exact .inl h
-  · exact .inr ⟨_, rfl, h⟩
+  exact hs.congr (send_rsame s d) (.inl (send_hist s d))
 
 theorem streamInv_stable : Stable StreamInv := by
   refine Stable.ofRaw streamInv_stable_send ?_ ?_ ?_
